@@ -18,6 +18,7 @@ package props
 // panic; no marker on the wire.
 
 import (
+	"sort"
 	"bytes"
 	"encoding/binary"
 	"fmt"
@@ -177,7 +178,7 @@ func TestC05(t *testing.T) {
 		for k := 0; k < nFaults && len(stream) > 0; k++ {
 			pos := c.Pick("fault.at", len(stream))
 			ch := stream[pos]
-			kind := core.OneOf(c, "fault.kind", "flip-ciphertext", "flip-mac", "flip-header", "flip-length", "truncate", "cut", "dup-now", "dup-later", "reorder", "drop", "inject-random", "inject-foreign", "inject-tiny")
+			kind := core.OneOf(c, "fault.kind", "flip-ciphertext", "flip-mac", "flip-header", "flip-length", "truncate", "cut", "dup-now", "dup-later", "reorder", "drop", "inject-random", "inject-foreign", "inject-tiny", "inject-reflected")
 			if (ch.orig < 0 || len(ch.data) < 30) && strings.HasPrefix(kind, "flip") {
 				// Injected garbage and remnants of a truncation are not link frames
 				// with a header, ciphertext and MAC to aim at.
@@ -245,6 +246,15 @@ func TestC05(t *testing.T) {
 						insert(pos, c05Chunk{data: foreign.conn.A.Take(0), orig: -1, what: "foreign-link-frame"})
 					}
 				}
+			case "inject-reflected":
+				// A link frame the receiver itself sent on this link, turned around.
+				rf, err := receiver.Builder.NewFrameV1(receiver.IP(), sender.IP(), frame.NetworkTraffic, nil, []byte("frame of the receiver, reflected back at it"), nil)
+				if err == nil {
+					_ = recvEnd.Link.Send(rf)
+					if recvEnd.WaitParked(1) == nil {
+						insert(pos, c05Chunk{data: recvEnd.Take(0), orig: -1, what: "reflected-own-link-frame"})
+					}
+				}
 			case "inject-tiny":
 				l := c.Int("tiny.len", 4, 27)
 				data := c.Bytes("tiny.bytes", l)
@@ -302,7 +312,44 @@ func TestC05(t *testing.T) {
 		for _, ch := range stream {
 			all = append(all, ch.data...)
 		}
-		writeErr := recvEnd.Write(all)
+		// The stream reaches the receiver in segments: whole (one write), or cut at
+		// generated offsets - also inside a length prefix or a header.
+		var writeErr error
+		nseg := 0
+		if c.Chance("segmented", 1, 3) && len(all) > 2 {
+			var cuts []int
+			off := 0
+			bounds := []int{}
+			for _, ch := range stream {
+				bounds = append(bounds, off)
+				off += len(ch.data)
+			}
+			for k, n := 0, c.Int("segments", 1, 8); k < n; k++ {
+				b := bounds[c.Pick("seg.frame", len(bounds))] + core.OneOf(c, "seg.delta", 1, 1, 0, 2, 3, 13, 14)
+				if c.Chance("seg.any", 1, 4) {
+					b = c.Uniform("seg.at", 1, len(all)-1)
+				}
+				if b > 0 && b < len(all) {
+					cuts = append(cuts, b)
+				}
+			}
+			sort.Ints(cuts)
+			prev := 0
+			for _, b := range append(cuts, len(all)) {
+				if b <= prev {
+					continue
+				}
+				if writeErr = recvEnd.Write(all[prev:b]); writeErr != nil {
+					break
+				}
+				prev = b
+				nseg++
+			}
+			c.Class("stream-segmented")
+		} else {
+			writeErr = recvEnd.Write(all)
+		}
+		_ = nseg
 		if cut {
 			recvEnd.Close()
 		}
